@@ -191,13 +191,15 @@ ImplResize(mode, dir, c, arr, shapeOut, offs) ==
              ELSE AssignIntersection(out0, ApplyPadding(arr, shapeOut, offs, mode, "adjoint"), offs)
 
 (* ---------------- ResizingOperator: _resize_discr / _offset_from_spaces ---- *)
-\* one axis of a uniform partition [lo, hi] with m cells (nodes_on_bdry = False: grid_min = lo + h/2,
-\* grid_max = hi - h/2), new length n, off = -1 for offset None.  `fixed` selects the repaired form of the
-\* explicit-offset branch (proposals/C16/shrink-offset-range-placement); the pinned tree is fixed = FALSE.
-ImplRange(lo, hi, m, n, off, fixed) ==
-  LET h     == CellSide(lo, hi, m)
-      gmin  == QAdd(lo, QHalf(h))
-      gmax  == QSub(hi, QHalf(h))
+\* One axis.  Domain: uniform partition of [lo, hi] with m nodes and flags dL, dR (grid_min / grid_max = first /
+\* last node, cell_size = grid stride); new length n, off = -1 for offset None; rL, rR = the `nodes_on_bdry` entry
+\* of discr_kwargs for this axis (on_bdry_l, on_bdry_r).  The function computes new_minpt / new_maxpt and hands
+\* them with (rL, rR) to uniform_partition, which determines the cell side and the first node of the range.
+\* `fixed` selects the repaired form of the explicit-offset branch (KF-C16-1, commit aeed2a0).
+ImplRangeB(lo, hi, m, n, off, dL, dR, rL, rR, fixed) ==
+  LET h     == CellSideB(lo, hi, m, dL, dR)                          \* discr.cell_sides
+      gmin  == Node0B(lo, hi, m, dL, dR)                             \* discr.grid.min()
+      gmax  == QAdd(gmin, QMul(QI(m - 1), h))                        \* discr.grid.max()
       ndiff == n - m
       numr  == IF m = n THEN 0
                ELSE IF off = -1 THEN ndiff \div 2                   \* Python floor division
@@ -207,25 +209,34 @@ ImplRange(lo, hi, m, n, off, fixed) ==
                ELSE IF off = -1 THEN ndiff - numr
                ELSE IF fixed /\ ndiff < 0 THEN -off
                ELSE off
-  IN  [lo |-> QSub(gmin, QMul(QAdd(QI(numl), <<1, 2>>), h)),         \* grid_min - (num_l + 0.5) * cell
-       hi |-> QAdd(gmax, QMul(QAdd(QI(numr), <<1, 2>>), h))]
-\* _offset_from_spaces: |ran.grid.min - dom.grid.min| / cell, 0 on unaffected axes
-ImplOffset(lo, hi, m, n, ranlo) ==
+      newlo == IF rL = 1 THEN QSub(gmin, QMul(QI(numl), h))                           \* on_bdry_l
+                         ELSE QSub(gmin, QMul(QAdd(QI(numl), <<1, 2>>), h))
+      newhi == IF rR = 1 THEN QAdd(gmax, QMul(QI(numr), h))                           \* on_bdry_r
+                         ELSE QAdd(gmax, QMul(QAdd(QI(numr), <<1, 2>>), h))
+      \* uniform_partition(new_minpt, new_maxpt, n, nodes_on_bdry=(rL, rR))
+      rh    == CellSideB(newlo, newhi, n, rL, rR)
+  IN  [lo |-> newlo, hi |-> newhi, cell |-> rh, node0 |-> Node0B(newlo, newhi, n, rL, rR), domnode0 |-> gmin, domcell |-> h]
+ImplRange(lo, hi, m, n, off, fixed) == ImplRangeB(lo, hi, m, n, off, 0, 0, 0, 0, fixed)
+\* _offset_from_spaces: |ran.grid.min - dom.grid.min| / dom.cell_sides, 0 on unaffected axes
+ImplOffsetB(m, n, r) ==
   IF m = n THEN 0
-  ELSE LET h == CellSide(lo, hi, m)
-           q == QDiv(QAbs(QSub(ranlo, lo)), h)
+  ELSE LET q == QDiv(QAbs(QSub(r.node0, r.domnode0)), r.domcell)
        IN  q[1] \div q[2]                                           \* integral in every case considered
-\* refinement: range and offset agree with the reference; the open finding (explicit non-zero offset on a shrinking
-\* axis) is the one excluded cell, where the model must show the defect the real code shows
-ImplRangeCorrectFor(lo, hi, m, n, off, fixed) ==
-  LET r == ImplRange(lo, hi, m, n, off, fixed)
-      o == ImplOffset(lo, hi, m, n, r.lo)
-      h == CellSide(lo, hi, m)
-  IN  IF off = -1
-        THEN DefaultOffsetOK(m, n, o) /\ r.lo = RangeLo(lo, hi, m, n, o) /\ r.hi = RangeHi(lo, hi, m, n, o)
+\* refinement: range limits, cell side, grid alignment and offset agree with the reference; with fixed = FALSE the
+\* (meanwhile repaired) finding KF-C16-1 is the one excluded cell, where the model must show the defect
+ImplRangeCorrectForB(lo, hi, m, n, off, dL, dR, rL, rR, fixed) ==
+  LET r == ImplRangeB(lo, hi, m, n, off, dL, dR, rL, rR, fixed)
+      o == ImplOffsetB(m, n, r)
+      h == CellSideB(lo, hi, m, dL, dR)
+      agrees(oo) == /\ r.lo = RangeLoB(lo, hi, m, n, oo, dL, dR, rL)
+                    /\ r.hi = RangeHiB(lo, hi, m, n, oo, dL, dR, rR)
+                    /\ r.cell = h
+                    /\ r.node0 = RangeNode0B(lo, hi, m, n, oo, dL, dR)
+  IN  IF off = -1 THEN DefaultOffsetOK(m, n, o) /\ agrees(o)
       ELSE IF ~fixed /\ n < m /\ off > 0
-        THEN o = off /\ r.lo = QSub(lo, QMul(QI(off), h)) /\ r.lo # RangeLo(lo, hi, m, n, off)     \* open finding KF-C16-1
-      ELSE o = (IF m = n THEN 0 ELSE off) /\ r.lo = RangeLo(lo, hi, m, n, o) /\ r.hi = RangeHi(lo, hi, m, n, o)
+        THEN o = off /\ r.node0 # RangeNode0B(lo, hi, m, n, off, dL, dR)
+      ELSE o = (IF m = n THEN 0 ELSE off) /\ agrees(o)
+ImplRangeCorrectFor(lo, hi, m, n, off, fixed) == ImplRangeCorrectForB(lo, hi, m, n, off, 0, 0, 0, 0, fixed)
 
 (* ---------------- refinement statement ------------------------------------ *)
 ProbeArrs(N) == {ZeroArr(N)} \cup {UnitArr(N, j) : j \in 1..N}
